@@ -371,6 +371,9 @@ pub fn run_c06(args: &Args) -> Report {
     }
     report_side_condition(&mut rep, &model, &safe_reqs);
     report_project_condition(&mut rep, &model, &proj_reqs, "verify");
+    if args.shard == 0 {
+        run_corners(&mut rep, &mut runner, "C06");
+    }
     compare_all(&mut rep, &runner, &model, "C06", "C06.stream_compare_iff, verify_ok_iff_uptodate, verify_open_readonly, verify_untouched");
     runner.cleanup();
     rep
@@ -636,6 +639,9 @@ pub fn run_c08(args: &Args) -> Report {
     }
     report_side_condition(&mut rep, &model, &safe_reqs);
     report_project_condition(&mut rep, &model, &proj_reqs, "twice");
+    if args.shard == 0 {
+        run_corners(&mut rep, &mut runner, "C08");
+    }
     compare_all(&mut rep, &runner, &model, "C08", "C08.build_open_forgets, build_open_hermetic, build_done_writes, temp_overwrites, temp_idempotent");
     runner.cleanup();
     rep
@@ -773,6 +779,9 @@ pub fn run_c09(args: &Args) -> Report {
     }
     report_side_condition(&mut rep, &model, &safe_reqs);
     report_project_condition(&mut rep, &model, &proj_reqs, "needed");
+    if args.shard == 0 {
+        run_corners(&mut rep, &mut runner, "C09");
+    }
     compare_all(&mut rep, &runner, &model, "C09", "C09.needed_no_touch, needed_updates_stale, needed_eq_build, temp_no_touch, temp_updates_stale");
     runner.cleanup();
     rep
@@ -863,6 +872,9 @@ pub fn run_c10(args: &Args) -> Report {
         if i == 0 {
             rep.sample(format!("{mode} on sources {:?} with decoys {:?}: changed paths {:?}", p.sources, p.files.iter().map(|f| f.0.clone()).filter(|f| !p0.files.iter().any(|g| &g.0 == f)).collect::<Vec<_>>(), changed));
         }
+    }
+    if args.shard == 0 {
+        run_corners(&mut rep, &mut runner, "C10");
     }
     compare_all(&mut rep, &runner, &model, "C10", "C10.untouched_unchanged, commands_change_no_file, verify_open_close_readonly, clean_creates_nothing");
     runner.cleanup();
